@@ -204,6 +204,69 @@ def genTestfsStored (name value : String) : String :=
     | some h => "ok " ++ h
     | none => "not-handed-on"
 
+/-! ### the signature-table half of `authenticode.PECOFFBinary` (C03g) -/
+
+/-- a receiver with the given table, directory entry and `length`; the section readers hold `first` / `last`, the
+    padding is `pad` zero bytes; `optDataDir` the 8 bytes of the entry -/
+def genPe (table : Bytes) (va size : Nat) (length : Int) (first last : Bytes) (pad : Nat) : authenticode.PECOFFBinary :=
+  ⟨⟨UInt32.ofNat va, UInt32.ofNat size⟩, ⟨0⟩, length, List.replicate pad 0,
+   ⟨encLE32 (UInt32.ofNat va) ++ encLE32 (UInt32.ofNat size)⟩, table, ⟨first⟩, ⟨last⟩⟩
+
+/-- externals for `gen.pe.append`: `SignAuthenticode` returns the signature that the real library produced -/
+def genPeSigner (sig : Bytes) : authenticode.Ext :=
+  { SignAuthenticode := fun _ _ r _ => (r, sig, none),
+    ParseAuthenticode := fun _ => (⟨⟨⟨⟩, [], [], [], ⟨⟩⟩, ⟨⟩, []⟩, some "unused"),
+    Authenticode_Verify := fun _ _ r => (r, false, some "unused"),
+    makeSectionReader := fun _ => ⟨[]⟩ }
+
+/-- `gen.pe.append`: the TRANSLATED `Sign` (with a `SignAuthenticode` that returns `sig`) and the translated
+    `AppendSignature sig` on a receiver built from what the harness observed of the real object BEFORE the step — table,
+    `Datadir`, `length`, and (optionally) the bytes in front of the directory entry, behind it, and the number of
+    padding bytes.  Answer: the new directory entry, the 8 bytes of `optDataDir`, the new table and `Bytes()`. -/
+def genPeAppend (table va size length sig first last pad : String) : String :=
+  let p := genPe (unhex table) (natArg va) (natArg size) (length.toInt?.getD 0) (unhex first) (unhex last) (natArg pad)
+  let a := p.AppendSignature (unhex sig)
+  let s := authenticode.PECOFFBinary.Sign (genPeSigner (unhex sig)) p ⟨0⟩ ⟨[], [], [], 0⟩
+  if s.1 != a.1 || s.2.1 != unhex sig || s.2.2.isSome || a.2.isSome then "sign-and-append-differ"
+  else s!"ok va={a.1.Datadir.VirtualAddress.toNat} size={a.1.Datadir.Size.toNat} dd={hex a.1.optDataDir.content} table={hex a.1.certTable} bytes={hex a.1.Bytes}"
+
+def genWinCertStr (w : signature.WINCertificate) : String :=
+  s!"({w.Length.toNat};{w.Revision.toNat};{w.CertType.toNat};{hex w.Certificate})"
+
+/-- `gen.pe.signatures`: the translated `Signatures()` on a receiver holding `table` (fuel as in `C03g_signatures`) -/
+def genPeSignatures (table : String) : String :=
+  let t := unhex table
+  let r := (genPe t 0 0 0 [] [] 0).Signatures (t.length + 1)
+  if r.2.isNone then "ok [" ++ ",".intercalate (r.1.map genWinCertStr) ++ "]" else "err"
+
+/-- `gen.pe.verify`: the translated `Verify` loop on `table`, with externals that answer for the k-th entry body what
+    the harness observed of the real `ParseAuthenticode` / `(*Authenticode).Verify` on that body (`verdicts`, one letter
+    per listed entry: `P` does not parse, `E` verification error, `T` / `F` verified true / false).  The entry is found
+    by its body; an `Authenticode` value carries the index in `Digest`. -/
+def genPeVerify (table verdicts : String) : String :=
+  let t := unhex table
+  let p := genPe t 0 0 0 [] [] 0
+  let entries := (p.Signatures (t.length + 1)).1
+  let vs := verdicts.toList
+  let idxOf := fun (b : Bytes) => (entries.map (·.Certificate)).idxOf b
+  let X : authenticode.Ext :=
+    { SignAuthenticode := fun _ _ r _ => (r, [], some "unused"),
+      ParseAuthenticode := fun b =>
+        let k := idxOf b
+        (⟨⟨⟨⟩, [], [], [], ⟨⟩⟩, ⟨⟩, [UInt8.ofNat (k % 256), UInt8.ofNat (k / 256)]⟩,
+         if vs.getD k 'P' == 'P' then some "parse" else none),
+      Authenticode_Verify := fun a _ r =>
+        let k := (a.Digest.getD 0 0).toNat + 256 * (a.Digest.getD 1 0).toNat
+        match vs.getD k 'E' with
+        | 'T' => (r, true, none)
+        | 'F' => (r, false, none)
+        | _ => (r, false, some "verify"),
+      makeSectionReader := fun _ => ⟨[]⟩ }
+  let r := authenticode.PECOFFBinary.Verify (t.length + 1) X p ⟨[], [], [], 0⟩
+  match r.2 with
+  | none => s!"ok {r.1}"
+  | some e => if e == "ErrNoSignatures" || e == "ErrNoValidSignatures" then "err " ++ e else "err other"
+
 def handleGen (op : String) (args : List String) : Option String :=
   match op, args with
   | "gen.sigdb.read", [h] =>
@@ -269,6 +332,11 @@ def handleGen (op : String) (args : List String) : Option String :=
     some s!"{hex r.2} rest={r.1.length}"
   | "gen.varsign", [name, guid, attrs, tm, payload, sd] => some (genVarSign name guid attrs tm payload sd)
   | "gen.testfs.stored", [name, value] => some (genTestfsStored name value)
+  | "gen.pe.append", [table, va, size, length, sig] => some (genPeAppend table va size length sig "" "" "0")
+  | "gen.pe.append", [table, va, size, length, sig, first, last, pad] =>
+    some (genPeAppend table va size length sig first last pad)
+  | "gen.pe.signatures", [table] => some (genPeSignatures table)
+  | "gen.pe.verify", [table, verdicts] => some (genPeVerify table verdicts)
   | "gen.skipped", [] => some (toString (skipped.map (·.1)))
   | _, _ => none
 
